@@ -82,7 +82,7 @@ Sym(c) ==
          f == MFeed(q, d, c, <<>>, MaxYields)
          r == f.r
          cand == UNION {LangByte(M, l, c) : l \in L}
-         und == Undecided(r.res) \/ f.lock \/ \E o \in cand : o[2].st \in {"ub", "wide"}
+         und == Undecided(r.res) \/ f.lock \/ \E o \in cand : o[2].st \in {"ub", "wide", "amb"}
          zp == \E o \in cand : o[2].st = "zp"
          ok == {o \in cand : NormEv(o[1]) = NormEv(f.evs) /\ Explains(r.res, r.d, o, isEnd)}
          h2 == Append(hist, c)
